@@ -25,6 +25,22 @@ def _t_dot(c):
     return Call("c:dot", fn, [a, b], desc=["dot", list(a), list(b), form], feats=_cf("dot", a, b))
 
 
+@template("c:dot_2d", "contract", weight=3)
+def _t_dot_2d(c):
+    """The everyday matrix / vector products only (ranks 1-2 on both sides), so that every kind combination of them is dense."""
+    k = c.int(1, 3)
+    a = (k,) if c.bool() else (c.int(1, 3), k)
+    b = (k,) if c.bool() else (k, c.int(1, 3))
+    form = c.int(0, 2)
+    if form == 0:
+        fn = lambda ns, x, y: ns.dot(x, y)
+    elif form == 1:
+        fn = lambda ns, x, y: x @ y
+    else:
+        fn = lambda ns, x, y: ns.matmul(x, y)
+    return Call("c:dot_2d", fn, [a, b], desc=["dot_2d", list(a), list(b), form], feats=_cf(["dot", "matmul_op", "matmul"][form], a, b))
+
+
 @template("c:matmul", "contract", weight=2)
 def _t_matmul(c):
     a, b = _matmul_shapes(c)
